@@ -2226,7 +2226,8 @@ task_cb(EV_P_ ev_periodic *w, int UNUSED(revents))
 	/* the task context holds the number of currently running children
 	 * as well as the maximum number of simultaneous children
 	 * if the maximum is running, defer the execution of this task */
-	if (t->nsim < (unsigned int)t->t->max_simul - 1U) {
+	if (t->t->max_simul >= 077U ||
+	    t->nsim < (unsigned int)t->t->max_simul) {
 		pid_t p;
 
 		/* indicate that we might want to reuse the loop */
